@@ -11,6 +11,7 @@ using namespace ef;
 static mcx::Report R;
 
 static const char OPS[] = {'0', '1', '2', '3', '4', 'W', 'D', 'C', 'F'};
+static int ZKIND = 0;
 static unsigned NBCUR = 1;   // profile 3: the last bunch of the train holds no charge at all (every bin zero), the others a dense profile
 struct Out { std::vector<float> wake, pad, specC, specF; float powC = 0, powF = 0; };
 
@@ -25,18 +26,24 @@ static float cutoff(Rig& r) { return (float)(0.5 * r.f->getFreqRuler()->scale("H
 
 static void apply_op(Rig& r, char op, int& cur) {
     switch (op) {
-    case '0': case '1': case '2': case '3': case '4': cur = op - '0'; NBCUR = r.c.nb; for (unsigned b = 0; b < r.c.nb; b++) r.set_profile(b, profile(r.c.n, b, cur)); break;
+    case '0': case '1': case '2': case '3': case '4': cur = op - '0'; NBCUR = r.c.nb;
+        for (unsigned b = 0; b < r.c.nb; b++) { auto p = profile(r.c.n, b, cur);
+            // impedance table 3 (values of 3e37 Ohm): profiles 0 and 1 are weak bunches (1e-6, 1e-3: their wake is finite), the others overflow single precision
+            if (ZKIND == 3) { const float sc = cur == 0 ? 1e-6f : cur == 1 ? 1e-3f : 1.f; for (auto& v : p) v *= sc; }
+            r.set_profile(b, p); }
+        break;
     case 'W': r.f->wakePotential(); break;
     case 'D': r.f->padBunchProfiles(); break;
     case 'C': r.f->updateCSR(0); break;
     case 'F': r.f->updateCSR(cutoff(r)); break;
     }
 }
-static int ZKIND = 0;   // shape of the impedance table: 0 = zero above N/2 (as every model), 1 = zero from N/4 on (a short user table alone), 2 = non-zero everywhere (a user table given with its negative-frequency half)
+// (declared above) shape of the impedance table: 0 = zero above N/2 (as every model), 1 = zero from N/4 on (a short user table alone), 2 = non-zero everywhere (a user table given with its negative-frequency half)
 static void set_impedance(Rig& r) {
     std::vector<impedance_t> Z(r.c.N);
-    const unsigned top = ZKIND == 0 ? r.c.N / 2 : ZKIND == 1 ? r.c.N / 4 : r.c.N;
+    const unsigned top = (ZKIND == 0 || ZKIND == 3) ? r.c.N / 2 : ZKIND == 1 ? r.c.N / 4 : r.c.N;
     for (unsigned k = 0; k < r.c.N; k++) Z[k] = k <= top ? impedance_t(20.f + 10.f * std::fabs(std::sin(0.37f * k)), 15.f * std::cos(0.21f * k)) : impedance_t(0, 0);
+    if (ZKIND == 3) for (unsigned k = 0; k < r.c.N; k++) Z[k] = k <= r.c.N / 2 ? impedance_t(3e37f, 0.f) : impedance_t(0, 0);      // so large that an order-one bunch overflows the transform
     r.set_z(Z);
 }
 static uint64_t canon(Rig& r, int cur, unsigned requested) {
@@ -71,9 +78,10 @@ int main(int argc, char** argv) {
     }
     if (R.warm) { std::set<unsigned> seen; for (auto& c : cfgs) if (seen.insert(c.N).second) { Rig r(c); r.f->wakePotential(); } return 0; }
     uint64_t states = 0, transitions = 0, closed = 0; unsigned deepest = 0;
-    for (auto& c : cfgs) for (int zk = 0; zk < 3; zk++) {
+    for (auto& c : cfgs) for (int zk = 0; zk < 4; zk++) {
         if (zk && !T && !(c.N == 16 || c.N == 33 || c.N == 64)) continue;
-        std::string kase = mcx::Desc()("n", c.n)("N", c.N)("buckets", bstr(c.buckets))("spacing", c.spacing)("ztable", zk == 0 ? "half" : zk == 1 ? "short" : "full").str();
+        if (zk == 3 && c.N != 16 && c.N != 30) continue;      // (the overflowing table: two transform lengths)
+        std::string kase = mcx::Desc()("n", c.n)("N", c.N)("buckets", bstr(c.buckets))("spacing", c.spacing)("ztable", zk == 0 ? "half" : zk == 1 ? "short" : zk == 2 ? "full" : "overflowing").str();
         if (!R.mine(kase)) continue;
         if (R.out_of_time()) { R.not_completed = kase; break; }
         ZKIND = zk;
@@ -82,7 +90,7 @@ int main(int argc, char** argv) {
         for (int p = 0; p < 5; p++) for (char op : {'W', 'D', 'C', 'F'}) {
             Rig r(c); set_impedance(r); int cur = -1; apply_op(r, (char)('0' + p), cur); apply_op(r, op, cur);
             Out o; grab(r, op, o);
-            if (op == 'W') { fresh[p].wake = o.wake; } if (op == 'D') fresh[p].pad = o.pad; if (op == 'C') fresh[p].specC = o.specC; if (op == 'F') fresh[p].specF = o.specF;
+            if (op == 'W') { fresh[p].wake = o.wake; if (zk == 3) { bool fin = true; for (float v : o.wake) fin = fin && std::isfinite(v); R.addnum(fin ? "sum_overflowing_table_profiles_with_a_finite_wake" : "sum_overflowing_table_profiles_with_a_non_finite_wake", 1); } } if (op == 'D') fresh[p].pad = o.pad; if (op == 'C') fresh[p].specC = o.specC; if (op == 'F') fresh[p].specF = o.specF;
             // replay determinism: a second fresh object must give the same bits
             Rig r2(c); set_impedance(r2); int c2 = -1; apply_op(r2, (char)('0' + p), c2); apply_op(r2, op, c2); Out o2; grab(r2, op, o2);
             if (!same(o.wake, o2.wake) || !same(o.pad, o2.pad) || !same(o.specC, o2.specC) || !same(o.specF, o2.specF))
@@ -173,6 +181,6 @@ int main(int argc, char** argv) {
         states += seen.size();
     }
     R.numbers["states"] = (double)states; R.numbers["transitions"] = (double)transitions; R.numbers["sum_configurations_closed"] = (double)closed; R.numbers["deepest_history"] = deepest;
-    R.bound_done("BFS over {P0,P1,P2,P3 (last bunch empty),P4 (first bunch as in P1, the others changed),W,D,C,F} histories to closure or depth " + std::to_string(maxdepth) + " per configuration; " + std::to_string(cfgs.size()) + " configurations x impedance table shapes {zero above N/2, short table, full spectrum}");
+    R.bound_done("BFS over {P0,P1,P2,P3 (last bunch empty),P4 (first bunch as in P1, the others changed),W,D,C,F} histories to closure or depth " + std::to_string(maxdepth) + " per configuration; " + std::to_string(cfgs.size()) + " configurations x impedance table shapes {zero above N/2, short table, full spectrum; + one of 3e37 Ohm on two lengths: weak bunches finite, the others overflow}");
     return R.finish();
 }
